@@ -140,7 +140,9 @@ class World:
             prog = self.versions[info["ver"]]
             if op["var"] in prog["vars"]:
                 v = prog["vars"][op["var"]]
-                value = _pyvalue(v["kind"], op["value"])
+                import copy as _copy
+
+                value = _copy.deepcopy(_pyvalue(v["kind"], op["value"]))
                 modn = ir.modname(prog, v["mod"])
                 inplace = bool(op.get("inplace")) and v["kind"] in ("list", "dict")
                 info["proc"].call({"cmd": "mutate", "module": modn, "var": op["var"], "value": value, "inplace": inplace})
